@@ -571,8 +571,29 @@ def drv_st_merge(c, ctx, col):
     mleaf = (lambda x: st_relabel(x, lambda i: [i])) if default_merger else (lambda x: x)
     mnodes = [mleaf(x) for x in nodes]
     objs = [st_build(x, leaf) for x in nodes]
-    expr = "Structured._merge(%s%s)" % (
-        ", ".join(R.st_expr(x) for x in mnodes), "" if default_merger else ", merger=lambda *xs: ['m', *xs]")
+    # object re-use across operands: the merge is defined on values, not on object identity
+    share = c.choose({1: 4, 2: 2}.get(k, 1)) if ctx.get("share", True) else 0
+    if share == 1:      # the very same object twice: _merge(a, ..., a)
+        mnodes.append(mnodes[0])
+        objs.append(objs[0])
+    elif share == 2:    # an operand and a structure derived from it (shares every untouched child object)
+        if not isinstance(mnodes[0], R.MS):
+            raise Skip()
+        mnodes.append(R.st_update(mnodes[0], {"b": mleaf(77)}))
+        objs.append(objs[0]._update(b=[77] if default_merger else 77))
+    elif share == 3:    # equal (interned) leaf values in different operands
+        mnodes.append(st_relabel(mnodes[0], lambda v: v))
+        objs.append(st_build(nodes[0], leaf))
+    names = ["a%d" % i for i in range(k)]
+    pre = "; ".join("%s = %s" % (nm, R.st_expr(x)) for nm, x in zip(names, mnodes))
+    if share == 1:
+        names.append("a0")
+    elif share == 2:
+        names.append("a0._update(b=%r)" % ([77] if default_merger else 77))
+    elif share == 3:
+        names.append(R.st_expr(mnodes[-1]))
+    call = "Structured._merge(%s%s)" % (", ".join(names), "" if default_merger else ", merger=lambda *xs: ['m', *xs]")
+    expr = "%s%s%s" % (pre, "; " if pre else "", call)
     key = "structured/merge :: " + expr
     if n:
         col.interesting()
@@ -587,7 +608,7 @@ def drv_st_merge(c, ctx, col):
     except ValueError as e:
         got = ("ValueError", str(e))
     detail = {"call": expr, "got": repr((got[0], st_obs(got[1]) if got[0] == "ok" else got[1])), "want": repr(want),
-              "repro": "from formulaic.utils.structured import Structured; print(%s)" % expr}
+              "repro": "from formulaic.utils.structured import Structured; %s%sprint(%s)" % (pre, "; " if pre else "", call)}
     if want[0] == "misaligned":
         # the docstring does not say what a tuple meeting a non-tuple does; ValueError is pinned by the tests
         col.count("merge-misaligned-" + ("rejected" if got[0] == "ValueError" else "accepted(unspecified)"))
@@ -613,7 +634,7 @@ def drv_st_merge(c, ctx, col):
             col.violation(key + " (operand mutated)", detail, sig="merge-mutates")
     if k == 2 and not default_merger:
         a, b = nodes
-        sa, sb = objs
+        sa, sb = objs[:2]
         if isinstance(a, R.MS) and isinstance(b, R.MS):
             if (sa == sb) != (a == b) or (sa != sb) == (a == b):
                 col.violation("structured/equality :: %s == %s" % (R.st_expr(a), R.st_expr(b)),
@@ -718,6 +739,8 @@ class LMWorld:
         self.handles = []         # [(real, model, variable name)] every mapping the history produced, newest last
         self.nvars = 0
         self.frames = False
+        self.nones = False        # store None as the VALUE of one (rotating) key per layer
+        self.nmaps = 0
         self.ext = None           # (real dict, model dict, index in supplied, variable) of the first plain dict layer
 
     def real_of(self, model):
@@ -742,6 +765,9 @@ class LMWorld:
             d = {k: [100.0 * self.nvars + KEYS.index(k), 0.5] for k in keys}
         else:
             d = {k: "%s.%s" % (tag, k) for k in keys}
+            if self.nones and KEYS[(self.nmaps + 1) % 3] in d:
+                d[KEYS[(self.nmaps + 1) % 3]] = None   # a stored None is a value like any other
+        self.nmaps += 1
         model = _items_canon(d)
         if kind == "plain":
             real, src = dict(d), "%r" % (d,)
@@ -936,7 +962,8 @@ def lm_events_kinds():
 
 
 def lm_events(full):
-    ev = [("set", k) for k in KEYS] + [("del", k) for k in KEYS] + [("named",)] + ([("wl-empty",)] if full else [])
+    ev = [("set", k) for k in KEYS] + [("del", k) for k in KEYS] + [("named",)] + \
+         ([("wl-empty",), ("set-none", "k2")] if full else [])
     for inplace in (False, True):
         for prepend in (True, False):
             if full:
@@ -967,8 +994,8 @@ def lm_apply(col, w, ev, step, h=-1):
         w.supplied[idx] = (desc, obj, fn, fn(obj), cheap)
         return
     real, model, var = w.handles[h]
-    if ev[0] == "set":
-        v = "w%d.%s" % (step, ev[1])
+    if ev[0] in ("set", "set-none"):
+        v = None if ev[0] == "set-none" else "w%d.%s" % (step, ev[1])
         w.script.append(("%s[%r] = %r", (var, ev[1], v)))
         real[ev[1]] = v
         model.set(ev[1], v)
@@ -1028,6 +1055,8 @@ def lm_apply(col, w, ev, step, h=-1):
 def lm_build(c, ctx, w):
     nl = c.pick(ctx["layer_counts"]) if ctx.get("layer_counts") else c.upto(ctx["max_layers"])
     top = c.pick(ctx["top_names"])
+    if ctx.get("none_values"):
+        w.nones = c.pick(ctx["none_values"])
     reals, models, lvars = [], [], []
     if nl > ctx["full_upto"]:
         # covering family: every per-key presence pattern over the nl layers occurs for every key
@@ -1112,7 +1141,7 @@ TPROBE = [("1",), ("b", "a"), ("a", "c")]
 SLICES = [slice(1, None), slice(None, None, -1), slice(0, 2), slice(None, None, 2)]
 
 
-def sf_events(terms, wide, extra_index=False):
+def sf_events(terms, wide, extra_index=False, copies=True):
     ev = []
     for i in ((0, 1, -1) if wide else (0, -1)) + ((7,) if extra_index else ()):
         ev += [("insert", i, t) for t in terms]
@@ -1120,7 +1149,7 @@ def sf_events(terms, wide, extra_index=False):
     for i in (0, -1) + ((1,) if extra_index else ()):
         ev += [("set", i, t) for t in terms]
     ev += [("del", i) for i in ((0, -1, 1) if wide else (0, -1))]
-    ev += [("extend",), ("reverse",), ("del-slice",)]
+    ev += [("extend",), ("reverse",), ("del-slice",)] + ([("copy", "copy"), ("copy", "deepcopy")] if copies else [])
     if wide:
         ev += [("set-slice",), ("pop",), ("remove",), ("iadd",)]
     return ev
@@ -1130,7 +1159,7 @@ def sf_violation(col, script, mode, sig, what, got, want):
     s = "; ".join(script)
     col.violation("formula/%s :: %s :: %s" % (sig, what, s),
                   {"ordering": mode, "history": list(script), "observation": what, "got": repr(got), "want": repr(want),
-                   "repro": "from formulaic.formula import SimpleFormula; from formulaic.parser.types import Term, Factor; "
+                   "repro": "import copy; from formulaic.formula import SimpleFormula; from formulaic.parser.types import Term, Factor; "
                             "T = lambda *fs: Term([Factor('1', eval_method='literal') if f == '1' else Factor(f) for f in fs]); "
                             "%s; print(f)" % s}, sig=sig)
 
@@ -1201,10 +1230,36 @@ def drv_sf(c, ctx, col):
         return
     if nops:
         col.interesting()
+    originals = []   # (formula that was copied, its content at that moment, variable name): must never change again
+
+    def originals_ok():
+        for of, om, ovar in originals:
+            now = sf_obs(of)
+            if now != om or not R.sf_ordered(now, mode):
+                sf_violation(col, script + ["%s  # the original" % ovar], mode, "copy-aliasing",
+                             "the formula that was copied is unchanged (and ordered) after mutating the copy",
+                             [R.t_str(t) for t in now], [R.t_str(t) for t in om])
+                return False
+        return True
     for step in range(nops):
         ev = ctx["first"] if step == 0 and ctx.get("first") else c.pick(ctx["events"])
         kind = ev[0]
         exact = True
+        if kind == "copy":
+            # continue the history on a copy; the original is kept and must stay as it was
+            ovar = "f%d" % len(originals)
+            script.append("%s = f; f = copy.%s(f)" % (ovar, ev[1]))
+            g = getattr(copy, ev[1])(f)
+            if type(g) is not SimpleFormula or g is f or g.ordering is not f.ordering:
+                sf_violation(col, script, mode, "copy-result", "copy.%s(f) is a new SimpleFormula with the same ordering" % ev[1],
+                             (type(g).__name__, getattr(g, "ordering", None)), ("SimpleFormula", f.ordering))
+                return
+            originals.append((f, list(model), ovar))
+            f = g
+            col.count("steps")
+            if not ctx.get("blind") and not (sf_light(col, script, mode, f, model) and originals_ok()):
+                return
+            continue
         if kind == "insert":
             script.append("f.insert(%d, %s)" % (ev[1], _T(ev[2])))
             act = lambda: f.insert(ev[1], mk_term(ev[2]))
@@ -1269,9 +1324,8 @@ def drv_sf(c, ctx, col):
         except (IndexError, ValueError, FormulaInvalidError) as e:
             got = type(e).__name__
         if kind == "set-slice" and got == "FormulaInvalidError":
-            # slice assignment is rejected by the implementation: not an ordering matter; the formula must be unchanged
-            col.count("unspecified-slice-assignment-rejected")
-            new = list(model)
+            sf_violation(col, script, mode, "slice-assign-rejected", script[-1], got, want)
+            return
         elif got != want:
             sf_violation(col, script, mode, "operation-outcome", script[-1], got, want)
             return
@@ -1291,10 +1345,11 @@ def drv_sf(c, ctx, col):
         model = new
         col.count("steps")
         # blind histories: no read of the formula between two operations (a read could flush / repair hidden state)
-        if not ctx.get("blind") and not sf_light(col, script, mode, f, model):
+        if not ctx.get("blind") and not (sf_light(col, script, mode, f, model) and originals_ok()):
             return
-    col.state(mode + repr(model))
+    col.state(mode + repr(model) + str(len(originals)))
     sf_reads(col, script, mode, f, model)
+    originals_ok()
     col.sample({"ordering": mode, "history": list(script), "result": [R.t_str(t) for t in model]})
 
 
@@ -1427,16 +1482,18 @@ def subchecks(tier, seed):
                                 **({"first_event": repr(extra["first"]), "note": "VERIF_SEED-selected exhaustive slice of the "
                                     "thorough scope (histories of exactly %d events)" % max_ops} if "first" in extra else {}),
                                 **({"reads": "only at the end of each history (no read between events)"} if extra.get("blind") else {}),
+                                **({"stored_values": "strings; x a variant in which one key per layer (rotating) holds the value None"}
+                                   if extra.get("none_values") else {}),
                                 "keys_per_layer": "every subset of k1,k2,k3 for stacks of <= %d layers; for taller stacks the "
                                                   "2**n covering matrices (every per-key presence pattern for every key)" % full_upto,
                                 "mutating_events": len(events),
                                 "history": "%s %d events" % ("exactly" if extra.get("min_ops") == max_ops else "<=", max_ops)}))
     kev = lm_events_kinds()
     if quick:
-        lm_sub("layered-kinds-reads", kev, 0, 2, ALL_KINDS, [None], 4, max_layers=2)
-        lm_sub("layered-kinds", kev, 1, 1, ALL_KINDS, [None], 5, max_layers=2)
+        lm_sub("layered-kinds-reads", kev, 0, 2, ALL_KINDS, [None], 4, max_layers=2, none_values=[False, True])
+        lm_sub("layered-kinds", kev, 1, 1, ALL_KINDS, [None], 5, max_layers=2, none_values=[False, True])
     else:
-        lm_sub("layered-kinds", kev, 1, 2, ALL_KINDS, [None], 5, max_layers=2)
+        lm_sub("layered-kinds", kev, 1, 2, ALL_KINDS, [None], 5, max_layers=2, none_values=[False, True])
         lm_sub("layered-kinds-2", kev, 2, 1, ALL_KINDS, [None], 6, max_layers=2, min_ops=2)
         lm_sub("layered-kinds-3", kev, 1, 2, ALL_KINDS, [None], 6, layer_counts=[3])
     lm_sub("layered-aliasing", lm_events_alias(), 3, 1, ["plain", "lm:x"] if not quick else ["plain"],
@@ -1445,12 +1502,12 @@ def subchecks(tier, seed):
         lm_sub("layered-aliasing-4", lm_events_alias(), 4, 0, ["plain"], [None], 7, layer_counts=[1], min_ops=4,
                blind=True, full_all=True)
     if quick:
-        lm_sub("layered-stacks", full, 1, 2, KINDS, [None, "t"], 6)
+        lm_sub("layered-stacks", full, 1, 2, KINDS, [None, "t"], 6, none_values=[False, True])
         lm_sub("layered-histories", reduced, 3, 1, ["plain", "lm:x"], [None], 6)
         lm_sub("layered-histories-seed-slice", reduced, 4, 1, ["plain"], [None], 5, max_layers=1,
                min_ops=4, first=reduced[seed % len(reduced)])
     else:
-        lm_sub("layered-stacks", full, 1, 3, KINDS, [None, "t"], 6)
+        lm_sub("layered-stacks", full, 1, 3, KINDS, [None, "t"], 6, none_values=[False, True])
         lm_sub("layered-stacks-2", full, 2, 2, KINDS, [None], 5)
         lm_sub("layered-histories", reduced, 4, 1, ["plain", "lm:x"], [None], 6, layer_counts=[0, 1, 2])
         lm_sub("layered-histories-3", reduced, 3, 1, ["plain", "lm:x"], [None], 8, layer_counts=[3])
@@ -1485,8 +1542,9 @@ def subchecks(tier, seed):
     else:
         narrow = sf_events(T5, False)
         sf_sub("formula-sequence", narrow, T5, 3)
-        sf_sub("formula-sequence-4", narrow, T5, 4, min_ops=4, inits=inits[:1])
-        sf_sub("formula-sequence-blind-4", narrow, T5, 4, min_ops=4, inits=inits[1:], blind=True)
+        narrow4 = sf_events(T5, False, copies=False)
+        sf_sub("formula-sequence-4", narrow4, T5, 4, min_ops=4, inits=inits[:1])
+        sf_sub("formula-sequence-blind-4", narrow4, T5, 4, min_ops=4, inits=inits[1:], blind=True)
         sf_sub("formula-sequence-wide", sf_events(T6, True, True), T6, 3)
     # ---- OrderedSet
     subs.append(Sub("ordered-set", drv_os, {"items": ["x", "y", "z"] if quick else ["x", "y", "z", 1], "n": 3 if quick else 4},
